@@ -233,28 +233,28 @@ func lazyCheck(c lz) {
 	zz.Assert(pulls <= need+c.stages, c.name+": pulls from the source only what the demand needs plus a constant look-ahead")
 }
 
-func VH_c12_lazy_Map()            { lazyCheck(lzfind("Map")) }
-func VH_c12_lazy_iteratorMap()    { lazyCheck(lzfind("iterator.Map")) }
-func VH_c12_lazy_TapEach()        { lazyCheck(lzfind("TapEach")) }
-func VH_c12_lazy_Filter()         { lazyCheck(lzfind("Filter")) }
-func VH_c12_lazy_FilterNot()      { lazyCheck(lzfind("FilterNot")) }
-func VH_c12_lazy_FilterMap()      { lazyCheck(lzfind("FilterMap")) }
-func VH_c12_lazy_TakeWhile()      { lazyCheck(lzfind("TakeWhile")) }
-func VH_c12_lazy_DropWhile()      { lazyCheck(lzfind("DropWhile")) }
-func VH_c12_lazy_Take()           { lazyCheck(lzfind("Take")) }
-func VH_c12_lazy_Drop()           { lazyCheck(lzfind("Drop")) }
-func VH_c12_lazy_FlatMap()        { lazyCheck(lzfind("FlatMap")) }
+func VH_c12_lazy_Map()             { lazyCheck(lzfind("Map")) }
+func VH_c12_lazy_iteratorMap()     { lazyCheck(lzfind("iterator.Map")) }
+func VH_c12_lazy_TapEach()         { lazyCheck(lzfind("TapEach")) }
+func VH_c12_lazy_Filter()          { lazyCheck(lzfind("Filter")) }
+func VH_c12_lazy_FilterNot()       { lazyCheck(lzfind("FilterNot")) }
+func VH_c12_lazy_FilterMap()       { lazyCheck(lzfind("FilterMap")) }
+func VH_c12_lazy_TakeWhile()       { lazyCheck(lzfind("TakeWhile")) }
+func VH_c12_lazy_DropWhile()       { lazyCheck(lzfind("DropWhile")) }
+func VH_c12_lazy_Take()            { lazyCheck(lzfind("Take")) }
+func VH_c12_lazy_Drop()            { lazyCheck(lzfind("Drop")) }
+func VH_c12_lazy_FlatMap()         { lazyCheck(lzfind("FlatMap")) }
 func VH_c12_lazy_iteratorFlatMap() { lazyCheck(lzfind("iterator.FlatMap")) }
-func VH_c12_lazy_ConcatLeft()     { lazyCheck(lzfind("ConcatLeft")) }
-func VH_c12_lazy_ConcatRight()    { lazyCheck(lzfind("ConcatRight")) }
-func VH_c12_lazy_Appended()       { lazyCheck(lzfind("Appended")) }
-func VH_c12_lazy_ZipWithIndex()   { lazyCheck(lzfind("ZipWithIndex")) }
-func VH_c12_lazy_Zip()            { lazyCheck(lzfind("Zip")) }
-func VH_c12_lazy_Scan()           { lazyCheck(lzfind("Scan")) }
-func VH_c12_lazy_Pipeline()       { lazyCheck(lzfind("Pipeline.Filter.Map.TakeWhile")) }
-func VH_c12_lazy_FlatMapTake()    { lazyCheck(lzfind("FlatMap.Take")) }
-func VH_c12_lazy_DropWhileTake()  { lazyCheck(lzfind("DropWhile.Take")) }
-func VH_c12_lazy_FilterMapTake()  { lazyCheck(lzfind("FilterMap.Take")) }
+func VH_c12_lazy_ConcatLeft()      { lazyCheck(lzfind("ConcatLeft")) }
+func VH_c12_lazy_ConcatRight()     { lazyCheck(lzfind("ConcatRight")) }
+func VH_c12_lazy_Appended()        { lazyCheck(lzfind("Appended")) }
+func VH_c12_lazy_ZipWithIndex()    { lazyCheck(lzfind("ZipWithIndex")) }
+func VH_c12_lazy_Zip()             { lazyCheck(lzfind("Zip")) }
+func VH_c12_lazy_Scan()            { lazyCheck(lzfind("Scan")) }
+func VH_c12_lazy_Pipeline()        { lazyCheck(lzfind("Pipeline.Filter.Map.TakeWhile")) }
+func VH_c12_lazy_FlatMapTake()     { lazyCheck(lzfind("FlatMap.Take")) }
+func VH_c12_lazy_DropWhileTake()   { lazyCheck(lzfind("DropWhile.Take")) }
+func VH_c12_lazy_FilterMapTake()   { lazyCheck(lzfind("FilterMap.Take")) }
 
 func VH_c12_lazy_duplicate_span_partition() {
 	k := zz.Choice("demand", 3)
